@@ -268,8 +268,9 @@ def run_flavor(flavor: str, net: Net, fn, seed: int = 0, on_idle=None):
 async def guarded(flavor: str, fn, horizon: float = 1.0e5):
     """Run one scenario `await fn()`; returns an Outcome (ok | exc | hang). 'hang' means the
     virtual-time watchdog fired (async) or the call could never be woken (sync)."""
-    from .runners import Outcome
+    from .runners import Outcome, reset_spin
     if is_async(flavor):
+        reset_spin()
         with anyio.move_on_after(horizon) as scope:
             try:
                 return Outcome("ok", await fn())
